@@ -12,6 +12,7 @@ import (
 	"fmt"
 	"os"
 	"sort"
+	"strconv"
 	"strings"
 	"time"
 
@@ -27,9 +28,9 @@ type plan struct {
 
 func treePlans(tier core.Tier) []plan {
 	if tier == core.Thorough {
-		return []plan{{uChain, 12}, {uFork, 10}, {uForkH, 9}, {uOrph, 12}, {uMix, 8}}
+		return []plan{{uChain, 12}, {uFork, 10}, {uForkH, 9}, {uOrph, 12}, {uRestart4, 9}, {uRestart2, 9}, {uMix, 8}}
 	}
-	return []plan{{uChain, 9}, {uFork, 8}, {uForkH, 7}, {uOrph, 10}, {uMix, 6}}
+	return []plan{{uChain, 9}, {uFork, 8}, {uForkH, 7}, {uOrph, 10}, {uRestart4, 7}, {uRestart2, 7}, {uMix, 6}}
 }
 
 // quiet hands the violations of every transition to the per-exploration
@@ -80,6 +81,14 @@ func run(tier core.Tier) *core.Report {
 	exhaustive := true
 	var bounds []string
 
+	// development aid: C15_PLAN=<layer>:<universe>:<depth> runs one exploration
+	if f := strings.Split(os.Getenv("C15_PLAN"), ":"); len(f) == 3 && universes[f[1]] != nil {
+		d, _ := strconv.Atoi(f[2])
+		smrPlans(tier)
+		explore(rep, f[0], plan{universes[f[1]], d}, false)
+		rep.Set("exhaustive", false)
+		return rep
+	}
 	// layer 1: the tree alone
 	for _, p := range treePlans(tier) {
 		st, _ := explore(rep, "tree", p, false)
